@@ -9,12 +9,14 @@ for f in sorted(os.listdir(os.path.join(V, "checks", "meta"))):
     if f.endswith(".json"):
         meta[f[:-5]] = json.load(open(os.path.join(V, "checks", "meta", f)))
 props = [json.loads(l) for l in open(os.path.join(V, "properties.jsonl"))]
+# checks/claimed.txt: ids the coordinator has verified on the unchanged tree (exit 0, evidence valid)
+claimed = set(open(os.path.join(V, "checks", "claimed.txt")).read().split())
 checks = []
 na = []
 for p in props:
     pid = p["id"]
     m = meta.get(pid)
-    if m and m.get("claimed") and os.path.exists(os.path.join(V, "checks", pid.lower() + ".py")):
+    if pid in claimed and m and os.path.exists(os.path.join(V, "checks", pid.lower() + ".py")):
         checks.append({
             "property_id": pid,
             "quick_cmd": "./check %s --tier quick" % pid,
